@@ -136,12 +136,12 @@ func reachableRepoFuncs(p *Program, roots []*ssa.Function) map[*ssa.Function]boo
 // the triage table of explicit panic sites reachable from the total API,
 // keyed by function and message prefix (DESIGN C08.R3).
 var triagedPanics = map[string]string{
-	"(*escaper).escapeText|infinite loop from":                     "internal invariant: every transition function consumes input or changes state (progress); not decided",
-	"(*escaper).editActionNode|node %s shared between templates":   "internal invariant: a node is edited once per commit; not decided",
-	"(*escaper).editTemplateNode|node %s shared between templates": "internal invariant: a node is edited once per commit; not decided",
-	"(*escaper).editTextNode|node %s shared between templates":     "internal invariant: a node is edited once per commit; not decided",
-	"(*escaper).commit|error adding derived template":              "internal invariant: derived names are unique and their trees non-nil; not decided",
-	"(*escaper).arbitraryTemplate|no templates in name space":      "internal invariant: a name space always contains its root template; not decided",
+	"(*escaper).escapeText|infinite loop from":                                                        "internal invariant: every transition function consumes input or changes state (progress); not decided",
+	"(*escaper).editActionNode|node %s shared between templates":                                      "internal invariant: a node is edited once per commit; not decided",
+	"(*escaper).editTemplateNode|node %s shared between templates":                                    "internal invariant: a node is edited once per commit; not decided",
+	"(*escaper).editTextNode|node %s shared between templates":                                        "internal invariant: a node is edited once per commit; not decided",
+	"(*escaper).commit|error adding derived template":                                                 "internal invariant: derived names are unique and their trees non-nil; not decided",
+	"(*escaper).arbitraryTemplate|no templates in name space":                                         "internal invariant: a name space always contains its root template; not decided",
 	"(*Template).lookupAndEscapeTemplate|html/template internal error: template escaping out of sync": "internal invariant: the safe and the text template sets have the same members; not decided",
 }
 
@@ -314,6 +314,8 @@ func runC08(p *Program, r *Report) {
 			}
 		}
 	}
+	// ---- R5 no self-deadlock (a hang is not a reported problem) ------------------------------------------
+	checkNoReentrantLock(p, r, "C08.R5")
 	// ---- R4 unchecked type assertions ----------------------------------------------------
 	n := 0
 	for _, f := range fl {
